@@ -750,6 +750,39 @@ impl ContinuityStreamCache {
         Ok(best)
     }
 
+    /// Whether the compaction-checkpoint caches lag behind the full sidecar.
+    ///
+    /// An append writes the full sidecar line first and the checkpoint sidecar line and index entry
+    /// after it. While the full sidecar's last frame is a checkpoint the existing checkpoint sidecar
+    /// or index does not hold yet, a reader that already takes that frame as the head of the
+    /// thread must not answer from those caches.
+    pub(crate) fn compaction_checkpoint_caches_behind_head_v1(&self, continuity_id: &str) -> bool {
+        let head = self
+            .try_read_last_header_for_sidecar_path(continuity_id, &self.path_for(continuity_id));
+        let Ok(Some(head)) = head else {
+            return false;
+        };
+        if head.event_type != "continuity_compaction_checkpoint_created" {
+            return false;
+        }
+
+        let sidecar_path = self.compaction_checkpoints_path_for_v1(continuity_id);
+        if sidecar_path.exists() {
+            match self.try_read_last_seq_for_sidecar_path(continuity_id, &sidecar_path) {
+                Ok(Some(seq)) if seq >= head.seq => {}
+                _ => return true,
+            }
+        }
+        let index_path = self.compaction_checkpoints_index_path_for_v1(continuity_id);
+        if index_path.exists() {
+            match load_compaction_checkpoint_index_v1(&index_path) {
+                Ok(Some(entries)) if entries.iter().any(|entry| entry.seq >= head.seq) => {}
+                _ => return true,
+            }
+        }
+        false
+    }
+
     /// Returns `Ok(None)` when the cache index doesn't exist and cannot be built from sidecars.
     pub(crate) fn hierarchical_compaction_checkpoints_before_or_at_seq_v1(
         &self,
